@@ -277,6 +277,50 @@ pub fn nats(v: &[usize]) -> String {
     v.iter().map(|x| x.to_string()).collect::<Vec<_>>().join(",")
 }
 
+thread_local! {
+    /// Exactness / fusedness complaints about OWNING iterators (drain, into_iter, into_keys, into_values)
+    /// collected while an operation runs; appended to its observation by the runner.
+    static OWN_FLAGS: std::cell::RefCell<String> = std::cell::RefCell::new(String::new());
+}
+
+pub fn own_flags_take() -> String {
+    OWN_FLAGS.with(|f| std::mem::take(&mut *f.borrow_mut()))
+}
+
+fn own_flag(what: &str) {
+    OWN_FLAGS.with(|f| {
+        let mut f = f.borrow_mut();
+        if !f.contains(what) {
+            f.push(' ');
+            f.push_str(what);
+        }
+    })
+}
+
+/// Direct oracle of C09 for owning iterators: `size_hint()` and `len()` must equal the number of
+/// elements still to come (`remaining`) at every point of a partial consumption.
+pub fn check_exact<I: ExactSizeIterator>(it: &I, remaining: usize) {
+    let (lo, hi) = it.size_hint();
+    if lo != remaining || hi != Some(remaining) || it.len() != remaining {
+        own_flag("SIZE-HINT-INEXACT");
+    }
+}
+
+/// `next()` with the exactness check before it and a fusedness check once it has answered `None`.
+pub fn next_exact<I: ExactSizeIterator>(it: &mut I, remaining: usize) -> Option<I::Item> {
+    check_exact(it, remaining);
+    let x = it.next();
+    if x.is_none() {
+        if remaining != 0 {
+            own_flag("SIZE-HINT-INEXACT");
+        }
+        if it.next().is_some() || it.next().is_some() {
+            own_flag("NOT-FUSED");
+        }
+    }
+    x
+}
+
 /// Drive an `ExactSizeIterator + Clone` the way `Map.iterObserve` does; `idx` maps an item to its bucket.
 pub fn observe_iter<I, T>(it: I, p: usize, idx: impl Fn(&T) -> usize) -> String
 where
@@ -829,13 +873,15 @@ impl<K: KeyT, V: ValT> MapRunner<K, V> {
             ("drain", 2) => {
                 let out = &mut self.stash;
                 {
+                    let total = m.len();
                     let mut d = m.drain();
                     for _ in 0..n(0) {
-                        match d.next() {
+                        match next_exact(&mut d, total - out.len()) {
                             Some(x) => out.push(x),
                             None => break,
                         }
                     }
+                    check_exact(&d, total - out.len());
                     if n(1) == 1 {
                         std::mem::forget(d);
                     }
@@ -847,13 +893,15 @@ impl<K: KeyT, V: ValT> MapRunner<K, V> {
                 let old = std::mem::replace(m, new_map());
                 let out = &mut self.stash;
                 {
+                    let total = old.len();
                     let mut it = old.into_iter();
                     for _ in 0..n(0) {
-                        match it.next() {
+                        match next_exact(&mut it, total - out.len()) {
                             Some(x) => out.push(x),
                             None => break,
                         }
                     }
+                    check_exact(&it, total - out.len());
                 }
                 quiet();
                 out.iter().map(|(k, v)| fmt_kv(k, v)).collect::<Vec<_>>().join(",")
@@ -915,6 +963,7 @@ impl<K: KeyT, V: ValT> Runner for MapRunner<K, V> {
         self.stash.clear();
         let clean = ret.clone();
         let mut ret = ret;
+        ret.push_str(&own_flags_take());
         if (name == "drain" && args.len() == 2 && args[1] == "1") || tape::with(|t| t.p.dpanic.is_some()) {
             self.leak_ok = true;
         }
